@@ -48,7 +48,8 @@ def run(ctx):
         groups.append(ids)
     order = rng.shuffle(list(range(len(seq))))
     seq = [seq[i] for i in order]
-    res = ctx.component('K-E2E', seq, )
+    res = ctx.component('K-E2E', seq, keys={'status', 'labels', 'start'})
+    ctx.component('K-E2E(whole model)', seq[:len(seq) // 3], verdict=False)
     # fresh processes for a subset
     fresh_bad = 0
     n_fresh = 0
